@@ -17,4 +17,4 @@ Extraction "model.ml"
   chunker
   mrun m0 mclean read_handler
   next_value_size transcode_slice transcode_reader mm_output mm_ok msgpack_matches DEPTH_LIMIT
-  json_slice json_reader jm_output jm_ok f64_of_decimal json_to_json.
+  json_slice json_reader jm_output jm_ok f64_of_decimal json_to_json msgpack_to_json.
